@@ -53,6 +53,7 @@ def run(ctx, rep, tier):
     rep.rule("N3", "names coloquinte.py uses on the compiled module exist in the binding table", 20)
     rep.rule("N4", "toString(CellOrientation) yields the enumerator name for the 8 orientations", 8)
     rep.rule("N5", "writer emits the keys the reader needs; row orientation written by name", 6)
+    rep.rule("XE", "every file of the benchmark is written on every path of exportIspd", 4)
     rep.rule("XF", "writer emits raw geometry that the reader inverts exactly; full-range loops", 6)
     table = extract_bindings(ctx, rep)
     check_python(ctx, rep, table)
@@ -441,8 +442,40 @@ def _reader_default(fn, src, key):
     return "<%s>" % ", ".join(sorted(vals)) if vals else "<none>"
 
 
+def check_export_complete(ctx, rep):
+    """XE. Circuit::exportIspd writes the five files of the benchmark on every path: each writer (the functions of export.cpp that
+    receive the file name) is called on every path from entry to a normal return, under no condition - an export that skips the
+    netlist "because it has not changed" leaves stale files behind."""
+    prog = ctx.prog
+    f = prog.func1(CQ + "Circuit::exportIspd")
+    g = cfg_of(f)
+    p0 = f.params[0] if f.params else None
+    calls = []
+    for x in walk(f.body):
+        if x.get("kind") in ("CallExpr", "CXXMemberCallExpr"):
+            ci, fs = ctx.eff.resolve_callee(x)
+            if ci and fs and p0 is not None and any(canon(a_) == ("var", p0.get("id"), p0.get("name")) for a_ in ci["args"]):
+                calls.append((x, fs[0]))
+    writers = {}
+    for x, h in calls:
+        writers.setdefault(h.key, (h, []))[1].append(x)
+    if len(writers) < 2:
+        rep.unknown("XE", f.decl, f, "file writers", "fewer than two writer calls receiving the file name were found (shape changed)")
+        return
+    for h, xs in writers.values():
+        ns = [g.node_for(x) for x in xs]
+        ns = [n_ for n_ in ns if n_ is not None]
+        what = "%s is called on every path of exportIspd" % short(h.qname)
+        if g.exit.idx in g.reachable_from([g.entry], avoid=ns):
+            rep.violation("XE", xs[0], f, what, "a path returns without calling it: that file keeps the content of an earlier export "
+                          "(or is missing) while the others are rewritten", key="Circuit::exportIspd|%s skipped on a path" % short(h.qname))
+        else:
+            rep.holds("XE", xs[0], f, what)
+
+
 def check_export(ctx, rep):
     prog = ctx.prog
+    check_export_complete(ctx, rep)
     # ---- rows (.scl): keys the reader interprets
     src = open(frontend.repo_path("pycoloquinte/coloquinte.py")).read()
     tree = pyast.parse(src)
